@@ -63,6 +63,7 @@ class RefIter:
         self.size = size
         self.duration = duration       # int or "DYNAMIC"
         self.char = char
+        self.shift = 0
         self.set_padding(padmodel, term)
 
     def set_padding(self, padmodel, term):
@@ -111,7 +112,7 @@ class RefIter:
         dur = 10 * (f + 1) if self.duration == "DYNAMIC" else self.duration
         l, t, r, b = self.margins()
         padded = (l + self.size[0] + r, t + self.size[1] + b)
-        return ("frame", f, dur, padded, self.size, self.char, (l, t, r, b))
+        return ("frame", f, dur, padded, self.size, (self.char, self.shift), (l, t, r, b))
 
     def seek(self, off, wh):
         if self.closed:
@@ -255,7 +256,8 @@ def run(ch, ctx, fault=None):
                                            % (got.number, got.duration, tuple(got.render_size)),))
                     check(err is None, "iteration_ended_early",
                           {"expected_frame": f, "step": i, "loop": model.loop}, "next")
-                    out = simrenderable.frame_output(f, sz, char, dur)
+                    char, shift = char
+                    out = simrenderable.frame_output(f, sz, char, dur, shift)
                     if padded != sz:
                         out = padding_mod.ExactPadding(l, t, rr, b, model.margins_of[0].fill).pad(
                             out, ti.geometry.Size(*sz))
@@ -320,11 +322,12 @@ def run(ch, ctx, fault=None):
             elif op == "args":
                 kind = ch.pick("argkind", ("own", "own", "base", "other"))
                 c2 = ch.pick("char2", "#@%")
+                sh2 = ch.pick("shift2", (0, 0, -1, -2, 1))
                 if kind == "own":
-                    a = +SimR.SimArgs(c2)
+                    a = +SimR.SimArgs(c2, sh2)
                 elif kind == "base":
                     a = R.RenderArgs(R.Renderable)
-                    c2 = "#"
+                    c2, sh2 = "#", 0
                 else:
                     a = R.RenderArgs(Other)
                 if model.closed:
@@ -334,9 +337,11 @@ def run(ch, ctx, fault=None):
                 else:
                     expn = None
                     model.char = c2
+                    model.shift = sh2
                     setting_changed[0] = True
                 expect_exc(expn, lambda: it.set_render_args(a),
-                           "set_render_args(%s char=%r)" % (kind, c2), "set_render_args")
+                           "set_render_args(%s char=%r shift=%d)" % (kind, c2, sh2),
+                           "set_render_args")
             elif op == "size":
                 s2 = (ch.int("w2", 1, 5), ch.int("h2", 1, 3))
                 if model.closed:
